@@ -205,9 +205,11 @@ def run_kani_unit(name, workdir, tier, prop):
         # auto-include: an edit may move code into a NEW free helper function of the same source file.  Kani executes
         # bodies, so the helper needs no contract: when compilation fails with "cannot find function `X`" and a top-level
         # `fn X` exists in one of the unit's source files it is extracted too and the harness is run again.
+        auto_used = False
         for _round in range(3):
             if und is None or "cannot find function" not in (und or ""):
                 break
+            auto_used = True
             names = set(re.findall(r"cannot find function `([A-Za-z_]\w*)`", und))
             added = False
             for nm in sorted(names):
@@ -224,7 +226,7 @@ def run_kani_unit(name, workdir, tier, prop):
             if not added:
                 break
             entry, und = run_one_uncached(item)
-        if use_cache and und is None and entry.get("status") in ("SUCCESSFUL", "FAILED"):
+        if use_cache and not auto_used and und is None and entry.get("status") in ("SUCCESSFUL", "FAILED"):
             try:
                 os.makedirs(cache_dir, exist_ok=True)
                 json.dump(entry, open(cpath, "w"))
@@ -266,7 +268,7 @@ def run_kani_unit(name, workdir, tier, prop):
             elif pb.get("ran") and not pb.get("reproduced"):
                 entry["status"] = "UNKNOWN"
                 und = "kani harness %s: counterexample did not reproduce in the native replay (spurious): %s" % (hname, pb.get("summary", ""))
-        if h.get("cover"):
+        if h.get("cover") and und is None:
             if r["covers"] is None or r["covers"][0] != r["covers"][1]:
                 if r["status"] != "FAILED":
                     entry["status"] = "UNKNOWN"
